@@ -94,3 +94,44 @@ func Verif_C03_AutomaticSnapshot() {
 	}
 	vr.Reach("end")
 }
+
+// Verif_C03_SecondSaveCapturesEveryKindOfChange: SAVE, then one change of any kind (a new key, an
+// overwrite, a deletion, a deadline set, a deadline cleared, a field removal, a flush, a rename)
+// in database 0 or 1, then SAVE again and restart: the restored dataset is the one the second SAVE saw,
+// not the first snapshot's.
+func Verif_C03_SecondSaveCapturesEveryKindOfChange() {
+	dir := vr.FSReset()
+	s := c03Server(dir, false, 1000, 0)
+	dbs := []int{0, 1}
+	db := dbs[vr.Choose("db", 2)]
+	_ = s.SelectDB(db)
+	c05Run(s, "SET", "k1", "v1")
+	c05Run(s, "SET", "k2", "v2", "PXAT", itoa(int(s.clock.Now().UnixMilli())+3600000))
+	c05Run(s, "HSET", "st", "f1", "a", "f2", "b") // (sets and sorted sets do not survive the JSON snapshot: known finding)
+	vr.Assert(c05Run(s, "SAVE") == "+OK\r\n", "C03.second_save.save_replies_ok")
+	c03Settle(s)
+	switch vr.Choose("change", 8) {
+	case 0:
+		c05Run(s, "SET", "k3", "v3")
+	case 1:
+		c05Run(s, "SET", "k1", "other")
+	case 2:
+		c05Run(s, "DEL", "k1")
+	case 3:
+		c05Run(s, "PEXPIREAT", "k1", itoa(int(s.clock.Now().UnixMilli())+7200000))
+	case 4:
+		c05Run(s, "PERSIST", "k2")
+	case 5:
+		c05Run(s, "HDEL", "st", "f1")
+	case 6:
+		c05Run(s, "FLUSHDB")
+	case 7:
+		c05Run(s, "RENAME", "k1", "k9")
+	}
+	vr.Assert(c05Run(s, "SAVE") == "+OK\r\n", "C03.second_save.save_replies_ok")
+	c03Settle(s)
+	want := c07View(s, dbs, "k1", "k2", "k3", "k9", "st")
+	s2 := c03Server(dir, true, 1000, 0)
+	vr.Assert(c07View(s2, dbs, "k1", "k2", "k3", "k9", "st") == want, "C03.second_save.restart_serves_the_dataset_of_the_last_save")
+	vr.Reach("end")
+}
